@@ -349,7 +349,7 @@ func run(c *vh.Ctx) error {
 			res.Fail("corpus", "", "corpus witness fails again: "+f+": "+what, f)
 		}
 	}
-	nScripts := c.N(380, 5000)
+	nScripts := c.N(380, 4200)
 	if os.Getenv("VERIF_C18_LOOP_ONLY") != "" { // debugging aid: only the end-to-end loop tier
 		nScripts = 0
 	}
